@@ -34,7 +34,7 @@ def _in_try_returning_false(n: ast.AST, f: Func) -> bool:
         if isinstance(a, ast.Try) and any(in_subtree(n, s) for s in a.body):
             for h in a.handlers:
                 names_ = {x.id for x in ast.walk(h.type) if isinstance(x, ast.Name)} if h.type is not None else {"Exception"}
-                if names_ & {"Exception", "BaseException", "TypeError"}:
+                if names_ & {"Exception", "BaseException"}:
                     if any(isinstance(s, ast.Return) and const_value(s.value) is False for s in h.body):
                         return True
     return False
@@ -307,6 +307,30 @@ def comparison_table(ctx):
     ok = texts == {f"operator({x}, rhs)", f"operator({x}, *args)", f"operator({x})"}
     yield Ob("C09.R4", ["C09"], f"{test.qual} | applies operator(value[, rhs | *args])", ok,
              "operator(x, rhs) / operator(x, *args) / operator(x)" if ok else f"test() calls {sorted(texts)}", test.loc())
+    # every verdict of test() is the operator's verdict (or False from the error handler)
+    bad_r = []
+    for r in walk_local(test.node):
+        if not isinstance(r, ast.Return):
+            continue
+        v = r.value
+        while isinstance(v, ast.Call) and isinstance(v.func, ast.Name) and v.func.id == "bool" and len(v.args) == 1:
+            v = v.args[0]
+
+        def op_call(e) -> bool:
+            return isinstance(e, ast.Call) and isinstance(e.func, ast.Name) and e.func.id == "operator"
+        in_handler = any(isinstance(a_, ast.ExceptHandler) for a_ in ancestors(r))
+        if op_call(v) or (isinstance(v, ast.IfExp) and op_call(v.body) and op_call(v.orelse)):
+            continue
+        if in_handler and const_value(v) is False:
+            continue
+        bad_r.append(f"`{norm(r, 60)}` is a verdict that the operator did not compute")
+    for n_ in walk_local(test.node):
+        if isinstance(n_, ast.If) and not any(isinstance(a_, ast.ExceptHandler) for a_ in ancestors(n_)):
+            t_ = norm(n_.test)
+            if t_ not in ("not test_against_rhs", "test_against_rhs", "args"):
+                bad_r.append(f"test() branches on `{t_}` before asking the operator")
+    yield Ob("C09.R4", ["C09"], f"{test.qual} | every verdict comes from the operator", not bad_r,
+             "; ".join(bad_r[:2]) if bad_r else "returns are operator(...) or the handler's False", test.loc())
     sq = [n for n in walk_local(gen.node) if isinstance(n, ast.Call) and isinstance(n.func, ast.Name)
           and n.func.id == "SimpleQuery"]
     init = ctx.prog.func("SimpleQuery.__init__", "C09.R4")
@@ -512,3 +536,72 @@ def unhashable_never_equal(ctx):
         ok = any(isinstance(r, ast.Return) and norm(r.value) == "self._hash is not None" for r in walk_local(ih.node))
         yield Ob("C17.R3", ["C17"], f"{ih.qual} | hashable iff identity is not None", ok,
                  "self._hash is not None" if ok else "is_hashable does not test `self._hash is not None`", ih.loc())
+
+
+RE_SIGS = {"match": ("pattern", "string", "flags"), "search": ("pattern", "string", "flags"),
+           "fullmatch": ("pattern", "string", "flags"), "compile": ("pattern", "flags"),
+           "findall": ("pattern", "string", "flags"), "finditer": ("pattern", "string", "flags")}
+PAT_SIGS = {"match": ("string", "pos", "endpos"), "search": ("string", "pos", "endpos"),
+            "fullmatch": ("string", "pos", "endpos")}
+
+
+@rule("C09.R5", ["C09"], min_instances=2, design="3.9")
+def regex_argument_binding(ctx):
+    """matches()/search() hand (pattern=regex, string=value, flags=flags) to re.match / re.search respectively."""
+    for meth, fn in (("matches", "match"), ("search", "search")):
+        f = ctx.prog.func(f"BaseQuery.{meth}", "C09.R5")
+        params = f.params()
+        if len(params) < 3:
+            raise AnalysisError("C09.R5", f"BaseQuery.{meth}: expected (self, regex, flags)")
+        rx, fl = params[1], params[2]
+        clos = [g for g in ctx.prog.nested(f) if not isinstance(g.node, ast.Lambda)]
+        if not clos:
+            raise AnalysisError("C09.R5", f"BaseQuery.{meth}: test closure not found")
+        g = clos[0]
+        val = g.params()[0]
+        roles = {rx: set(), fl: set(), val: set()}
+        fns = []
+        scopes = [f.node, g.node]
+        compiled = set()
+        for sc in scopes:
+            for n in walk_local(sc):
+                if not isinstance(n, ast.Call) or not isinstance(n.func, ast.Attribute):
+                    continue
+                recv = n.func.value
+                sig = None
+                if isinstance(recv, ast.Name) and recv.id == "re" and n.func.attr in RE_SIGS:
+                    sig = RE_SIGS[n.func.attr]
+                    fns.append(n.func.attr)
+                    if n.func.attr == "compile":
+                        st = stmt_of(n)
+                        if isinstance(st, ast.Assign) and isinstance(st.targets[0], ast.Name):
+                            compiled.add(st.targets[0].id)
+                elif n.func.attr in PAT_SIGS and (
+                        (isinstance(recv, ast.Name) and recv.id in compiled)
+                        or (isinstance(recv, ast.Call) and norm(recv.func) == "re.compile")):
+                    sig = PAT_SIGS[n.func.attr]
+                    fns.append(n.func.attr)
+                if sig is None:
+                    continue
+                for i, a_ in enumerate(n.args):
+                    if isinstance(a_, ast.Name) and a_.id in roles and i < len(sig):
+                        roles[a_.id].add(sig[i])
+                for k in n.keywords:
+                    if isinstance(k.value, ast.Name) and k.value.id in roles and k.arg:
+                        roles[k.value.id].add(k.arg)
+        bad = []
+        if roles[rx] != {"pattern"}:
+            bad.append(f"`{rx}` reaches the regex engine as {sorted(roles[rx]) or 'nothing'}, expected the pattern")
+        if roles[fl] != {"flags"}:
+            bad.append(f"`{fl}` reaches the regex engine as {sorted(roles[fl]) or 'nothing'}, expected the flags "
+                       f"(a compiled pattern's second positional argument is the start offset)")
+        if roles[val] != {"string"}:
+            bad.append(f"the point's value reaches the regex engine as {sorted(roles[val]) or 'nothing'}")
+        used = [x for x in fns if x != "compile"]
+        if used != [fn]:
+            bad.append(f"{meth}() uses re functions {used}, documented re.{fn}")
+        rets = [r for r in walk_local(g.node) if isinstance(r, ast.Return) and const_value(r.value) is not False]
+        if not any(norm(r.value).endswith("is not None") for r in rets):
+            bad.append("verdict is not `<match object> is not None`")
+        yield Ob("C09.R5", ["C09"], f"{f.qual} | regex argument binding", not bad,
+                 "; ".join(bad[:3]) if bad else f"re.{fn}(pattern={rx}, string=value, flags={fl})", f.loc())
